@@ -95,6 +95,17 @@ PROPS = {
         "technique": "Lean 4 proof (case analysis + induction over cycles) + non-canonical-encoding correspondence",
         "assumptions": ["outer tag-24 byte-string head in shortest form (as the property states)"],
     },
+    "C11": {
+        "rule": "the harness plays the reader with the session keys of a real established session and sends DeviceRequests with 1-3 document requests, each absent / authentic / signature flipped / ItemsRequestBytes re-encoded after signing / signed for another session's transcript / signed over other items / "
+                "self-signed, expired, DS-role or wrong-key reader certificate / attached payload / alg ES384 / x5chain missing or only in the protected header; all patterns of one request, most of two, sampled triples; four device-side registries (right reader CA, empty, IACA-purpose only, unrelated reader CA). Distinct by plaintext bytes",
+        "xlate_items": [],
+        "trusted_base": ["Model/DeviceAuthReq.lean: hand model of validate_request / reader_authentication over per-request facts", "facts computed by the harness: own ReaderAuthentication Sig_structure from wire bytes, p256 directly; chain validation (MdlReaderOneStep) result taken from the library (C12)",
+                         "AEAD/ECDSA primitives as in C03"],
+        "level_text": "Lean theorems: a document request's reader authentication is ok iff readerAuth is present with a decodable x5chain in the unprotected header, chain validation against reader-CA anchors has no error, and COSE verification succeeds over the detached ReaderAuthenticationBytes of this session; the status is Valid iff that holds for EVERY document request; nothing is Valid for undecodable messages. Tied by pattern correspondence over registries with the predicate evaluated on real verdicts.",
+        "level_note": "Trusted: Lean kernel; fact extraction; chain validation is C12.",
+        "technique": "Lean 4 proof (decision logic) + pattern-exhaustive adversarial correspondence",
+        "assumptions": ["signature unforgeability"],
+    },
     "C13": {
         "rule": "every call sequence up to length 3 (quick) / 4 (thorough) over {handle_request(valid | not-CBOR plaintext | non-request plaintext | undecryptable | garbage), "
                 "prepare_response(0,1,2 documents), get_next_signature_payload, submit_next_signature(real | invented bytes), response_ready, retrieve_response} from a fresh established session, "
